@@ -35,6 +35,16 @@ def run_prop(pid, tier, seed, repo=None, quiet=False):
                    "configuration %s (%s) no longer type-checks:\n%s" % (k, engine.CONFIGS[k][2], log[-800:]), cfg=k)
         elif not quiet:
             print("note: configuration %s did not type-check (skipped for %s)" % (k, pid))
+    fx = getattr(mod, "FIXTURES", None)
+    if fx:
+        from . import fixtures
+        problems = fixtures.selfcheck(set(fx))
+        if problems:
+            print("ENVIRONMENT: positive fixture self-check failed (broken machinery, not a property violation):")
+            for pr in problems:
+                print("  " + pr)
+            return 2
+        ctx.notes.append("positive fixtures: rules %s fired on the violating fixture crate and stayed silent on the discharged twins" % sorted(fx))
     mod.run(ctx, facts)
     meta = dict(mod.META)
     meta["cmd"] = "./check %s --tier %s" % (pid, tier)
